@@ -10,15 +10,18 @@ namespace NoKV.Queue
 applied) determines the ghost linearization flag and the ack flag of its client. -/
 structure InvA (s : St) : Prop where
   qb : ∀ (t : Nat) (cl : Client), s.clients[t]? = some cl → t ∈ s.queue ++ s.batch →
-        cl.pc = .wait ∧ cl.lin = none ∧ cl.acked = false
+        cl.pc = .wait ∧ cl.lin = none ∧ cl.acked = false ∧ cl.failed = false
   ap : ∀ (t : Nat) (cl : Client), s.clients[t]? = some cl → t ∈ s.applied →
-        cl.pc = .wait ∧ cl.lin = some .ok ∧ cl.acked = false
+        cl.pc = .wait ∧ cl.acked = false ∧
+        ((cl.failed = false ∧ cl.lin = some .ok) ∨ (cl.failed = true ∧ cl.lin = none))
   bq : ∀ t ∈ s.queue, t < s.clients.length
   bb : ∀ t ∈ s.batch, t < s.clients.length
   ba : ∀ t ∈ s.applied, t < s.clients.length
   nd : (s.queue ++ s.batch ++ s.applied).Nodup
-  nw : ∀ (t : Nat) (cl : Client), s.clients[t]? = some cl → cl.pc ≠ .wait → cl.lin = none ∧ cl.acked = false
-  al : ∀ (t : Nat) (cl : Client), s.clients[t]? = some cl → cl.acked = true → cl.lin = some .ok
+  nw : ∀ (t : Nat) (cl : Client), s.clients[t]? = some cl → cl.pc ≠ .wait →
+        cl.lin = none ∧ cl.acked = false ∧ cl.failed = false
+  al : ∀ (t : Nat) (cl : Client), s.clients[t]? = some cl → cl.acked = true →
+        ((cl.failed = false ∧ cl.lin = some .ok) ∨ (cl.failed = true ∧ cl.lin = none))
   wr : ∀ (t : Nat) (cl : Client), s.clients[t]? = some cl →
         (cl.pc = .rd → cl.op.isWrite = false) ∧ (cl.pc ≠ .rd → cl.pc ≠ .idle → cl.op.isWrite = true)
 
@@ -29,6 +32,7 @@ structure InvW (c : QCfg) (s : St) : Prop where
   w1 : s.wph = .idle → s.batch = [] ∧ s.applied = []
   w2 : s.wph = .collect → s.batch ≠ [] ∧ s.applied = []
   w3 : s.wph = .applying → s.batch ≠ []
+  w3f : s.wph = .failing → s.batch ≠ []
   w4 : s.wph = .acking → s.batch = [] ∧ s.applied ≠ []
   w5 : s.wph = .done → s.queue = [] ∧ s.batch = [] ∧ s.applied = [] ∧ 1 ≤ s.clPc
   k : 2 ≤ s.clPc → s.wph = .done
@@ -46,19 +50,134 @@ theorem invW_init (c : QCfg) (n : Nat) : InvW c (St.init n) := by
   constructor <;> simp [St.init, List.getElem?_replicate] <;> grind
 
 set_option maxHeartbeats 1000000 in
-theorem invA_step (c : QCfg) (p : Params) (s s' : St) (a : Act) (hi : InvA s)
-    (hs : step c p s a = some s') : InvA s' := by
+theorem invA_call (c : QCfg) (p : Params) (s s' : St) (t : Nat) (op : Op) (hi : InvA s)
+    (hs : step c p s (.call t op) = some s') : InvA s' := by
   obtain ⟨qb, ap, bq, bb, ba, nd, nw, al, wr⟩ := hi
-  cases a <;> simp only [step, clientStep, St.ret, St.setClient, St.emit] at hs <;>
-    (repeat' (split at hs))
+  simp only [step, clientStep, St.ret, St.setClient, St.emit] at hs
+  (repeat' (split at hs))
   all_goals (first | contradiction | skip)
   all_goals (injection hs with hs; subst hs)
   all_goals (constructor <;> simp only [] <;> grind)
 
 set_option maxHeartbeats 1000000 in
+theorem invA_cstep (c : QCfg) (p : Params) (s s' : St) (t : Nat) (hi : InvA s)
+    (hs : step c p s (.cstep t) = some s') : InvA s' := by
+  obtain ⟨qb, ap, bq, bb, ba, nd, nw, al, wr⟩ := hi
+  simp only [step, clientStep, St.ret, St.setClient, St.emit] at hs
+  (repeat' (split at hs))
+  all_goals (first | contradiction | skip)
+  all_goals (injection hs with hs; subst hs)
+  all_goals (constructor <;> simp only [] <;> grind)
+
+set_option maxHeartbeats 1000000 in
+theorem invA_wpop (c : QCfg) (p : Params) (s s' : St)  (hi : InvA s)
+    (hs : step c p s .wpop = some s') : InvA s' := by
+  obtain ⟨qb, ap, bq, bb, ba, nd, nw, al, wr⟩ := hi
+  simp only [step, clientStep, St.ret, St.setClient, St.emit] at hs
+  (repeat' (split at hs))
+  all_goals (first | contradiction | skip)
+  all_goals (injection hs with hs; subst hs)
+  all_goals (constructor <;> simp only [] <;> grind)
+
+set_option maxHeartbeats 1000000 in
+theorem invA_wmore (c : QCfg) (p : Params) (s s' : St)  (hi : InvA s)
+    (hs : step c p s .wmore = some s') : InvA s' := by
+  obtain ⟨qb, ap, bq, bb, ba, nd, nw, al, wr⟩ := hi
+  simp only [step, clientStep, St.ret, St.setClient, St.emit] at hs
+  (repeat' (split at hs))
+  all_goals (first | contradiction | skip)
+  all_goals (injection hs with hs; subst hs)
+  all_goals (constructor <;> simp only [] <;> grind)
+
+set_option maxHeartbeats 1000000 in
+theorem invA_wapply (c : QCfg) (p : Params) (s s' : St)  (hi : InvA s)
+    (hs : step c p s .wapply = some s') : InvA s' := by
+  obtain ⟨qb, ap, bq, bb, ba, nd, nw, al, wr⟩ := hi
+  simp only [step, clientStep, St.ret, St.setClient, St.emit] at hs
+  (repeat' (split at hs))
+  all_goals (first | contradiction | skip)
+  all_goals (injection hs with hs; subst hs)
+  all_goals (constructor <;> simp only [] <;> grind)
+
+set_option maxHeartbeats 1000000 in
+theorem invA_wfail (c : QCfg) (p : Params) (s s' : St)  (hi : InvA s)
+    (hs : step c p s .wfail = some s') : InvA s' := by
+  obtain ⟨qb, ap, bq, bb, ba, nd, nw, al, wr⟩ := hi
+  simp only [step, clientStep, St.ret, St.setClient, St.emit] at hs
+  (repeat' (split at hs))
+  all_goals (first | contradiction | skip)
+  all_goals (injection hs with hs; subst hs)
+  all_goals (constructor <;> simp only [] <;> grind)
+
+set_option maxHeartbeats 1000000 in
+theorem invA_wack (c : QCfg) (p : Params) (s s' : St)  (hi : InvA s)
+    (hs : step c p s .wack = some s') : InvA s' := by
+  obtain ⟨qb, ap, bq, bb, ba, nd, nw, al, wr⟩ := hi
+  simp only [step, clientStep, St.ret, St.setClient, St.emit] at hs
+  (repeat' (split at hs))
+  all_goals (first | contradiction | skip)
+  all_goals (injection hs with hs; subst hs)
+  all_goals (constructor <;> simp only [] <;> grind)
+
+set_option maxHeartbeats 1000000 in
+theorem invA_wexit (c : QCfg) (p : Params) (s s' : St)  (hi : InvA s)
+    (hs : step c p s .wexit = some s') : InvA s' := by
+  obtain ⟨qb, ap, bq, bb, ba, nd, nw, al, wr⟩ := hi
+  simp only [step, clientStep, St.ret, St.setClient, St.emit] at hs
+  (repeat' (split at hs))
+  all_goals (first | contradiction | skip)
+  all_goals (injection hs with hs; subst hs)
+  all_goals (constructor <;> simp only [] <;> grind)
+
+set_option maxHeartbeats 1000000 in
+theorem invA_close (c : QCfg) (p : Params) (s s' : St)  (hi : InvA s)
+    (hs : step c p s .close = some s') : InvA s' := by
+  obtain ⟨qb, ap, bq, bb, ba, nd, nw, al, wr⟩ := hi
+  simp only [step, clientStep, St.ret, St.setClient, St.emit] at hs
+  (repeat' (split at hs))
+  all_goals (first | contradiction | skip)
+  all_goals (injection hs with hs; subst hs)
+  all_goals (constructor <;> simp only [] <;> grind)
+
+set_option maxHeartbeats 1000000 in
+theorem invA_thrOn (c : QCfg) (p : Params) (s s' : St)  (hi : InvA s)
+    (hs : step c p s .thrOn = some s') : InvA s' := by
+  obtain ⟨qb, ap, bq, bb, ba, nd, nw, al, wr⟩ := hi
+  simp only [step, clientStep, St.ret, St.setClient, St.emit] at hs
+  (repeat' (split at hs))
+  all_goals (first | contradiction | skip)
+  all_goals (injection hs with hs; subst hs)
+  all_goals (constructor <;> simp only [] <;> grind)
+
+set_option maxHeartbeats 1000000 in
+theorem invA_thrOff (c : QCfg) (p : Params) (s s' : St)  (hi : InvA s)
+    (hs : step c p s .thrOff = some s') : InvA s' := by
+  obtain ⟨qb, ap, bq, bb, ba, nd, nw, al, wr⟩ := hi
+  simp only [step, clientStep, St.ret, St.setClient, St.emit] at hs
+  (repeat' (split at hs))
+  all_goals (first | contradiction | skip)
+  all_goals (injection hs with hs; subst hs)
+  all_goals (constructor <;> simp only [] <;> grind)
+
+theorem invA_step (c : QCfg) (p : Params) (s s' : St) (a : Act) (hi : InvA s)
+    (hs : step c p s a = some s') : InvA s' := by
+  cases a with
+  | call t op => exact invA_call c p s s' t op hi hs
+  | cstep t => exact invA_cstep c p s s' t hi hs
+  | wpop => exact invA_wpop c p s s' hi hs
+  | wmore => exact invA_wmore c p s s' hi hs
+  | wapply => exact invA_wapply c p s s' hi hs
+  | wfail => exact invA_wfail c p s s' hi hs
+  | wack => exact invA_wack c p s s' hi hs
+  | wexit => exact invA_wexit c p s s' hi hs
+  | close => exact invA_close c p s s' hi hs
+  | thrOn => exact invA_thrOn c p s s' hi hs
+  | thrOff => exact invA_thrOff c p s s' hi hs
+
+set_option maxHeartbeats 1000000 in
 theorem invW_step (c : QCfg) (p : Params) (s s' : St) (a : Act) (hi : InvW c s)
     (hs : step c p s a = some s') : InvW c s' := by
-  obtain ⟨fw, w1, w2, w3, w4, w5, k, th, cp, pc4, pw, pr⟩ := hi
+  obtain ⟨fw, w1, w2, w3, w3f, w4, w5, k, th, cp, pc4, pw, pr⟩ := hi
   cases a <;> simp only [step, clientStep, St.ret, St.setClient, St.emit] at hs <;>
     (repeat' (split at hs))
   all_goals (first | contradiction | skip)
@@ -148,10 +267,11 @@ set_option maxHeartbeats 1000000 in
 object accepts them from `abs s` and ends in `abs s'`. -/
 theorem sim_step (c : QCfg) (hc : c.Struct) (p : Params) (s s' : St) (a : Act) (hi : InvA s)
     (hs : step c p s a = some s')
-    (hf : (c.enqFailKeepsRef = true ∧ c.getClosed = .closedErr) ∨ s'.clPc = 0) :
+    (hf : (c.enqFailKeepsRef = true ∧ c.getClosed = .closedErr) ∨ s'.clPc = 0)
+    (hwk : c.waitErrKeepsRef = true) :
     s'.hist = s.hist ++ newEvs s s' ∧ Spec.run (abs s) (newEvs s s') = some (abs s') := by
   obtain ⟨qb, ap, bq, bb, ba, nd, nw, al, wr⟩ := hi
-  obtain ⟨h1, h2, h3, h4, h5, h6, h7⟩ := hc
+  obtain ⟨h1, h2, h3, h4, h5, h6, h7, h8', h9'⟩ := hc
   cases a <;> simp only [step, clientStep, St.ret, St.setClient, St.emit] at hs <;>
     (repeat' (split at hs))
   all_goals (first | contradiction | skip)
@@ -199,7 +319,8 @@ theorem step_length (c : QCfg) (p : Params) (s s' : St) (a : Act) (hs : step c p
 
 /-- The annotated history of every reachable state is accepted by the register object, which
 ends in the abstraction of the state.  `hf`: both repairs present, or `Close` not started. -/
-theorem hist_accepted {c : QCfg} (hc : c.Struct) {p : Params} {s : St} (h : Reachable c p s)
+theorem hist_accepted {c : QCfg} (hc : c.Struct) (hwk : c.waitErrKeepsRef = true) {p : Params} {s : St}
+    (h : Reachable c p s)
     (hf : (c.enqFailKeepsRef = true ∧ c.getClosed = .closedErr) ∨ s.clPc = 0) :
     Spec.run (Spec.init s.clients.length) s.hist = some (abs s) := by
   revert hf
@@ -216,7 +337,7 @@ theorem hist_accepted {c : QCfg} (hc : c.Struct) {p : Params} {s : St} (h : Reac
       rcases hf with hf | hf
       · exact Or.inl hf
       · right; omega
-    obtain ⟨he, hrun⟩ := sim_step c hc p s s' a (inv_reachable hr).1 hs hf
+    obtain ⟨he, hrun⟩ := sim_step c hc p s s' a (inv_reachable hr).1 hs hf hwk
     rw [he, Spec.run_append, hlen, ih hf0]
     simpa using hrun
 
